@@ -58,6 +58,8 @@ type FuncContract struct {
 	Pure     bool
 	Trusted  bool // contract is assumed at call sites, body not verified (listed in evidence)
 	AssumeRequires bool // callers assume the preconditions instead of proving them (listed in evidence)
+	Options  map[string]bool // engine options for this function (e.g. elemlinks)
+	AssumeCallee []string // callees whose preconditions this function assumes at its own call sites (listed in evidence)
 	Asserts  []AtAssert
 	File     string
 	Line     int
@@ -120,7 +122,7 @@ type ContractSet struct {
 	assumeCount int
 }
 
-var clauseKeywords = map[string]bool{"assumed": true, "ghost": true, "after": true, "requires": true, "ensures": true, "loop": true, "safe": true, "pure": true, "trusted": true, "at": true, "var": true, "let": true, "assert": true, "results": true}
+var clauseKeywords = map[string]bool{"option": true, "assumed": true, "ghost": true, "after": true, "requires": true, "ensures": true, "loop": true, "safe": true, "pure": true, "trusted": true, "at": true, "var": true, "let": true, "assert": true, "results": true}
 var topKeywords = map[string]bool{"func": true, "spec": true, "axiom": true, "lemma": true, "bind": true, "structural": true}
 
 var propTagRe = regexp.MustCompile(`\[(C[0-9]+(?:\s*,\s*C[0-9]+)*)\]`)
@@ -431,6 +433,19 @@ func (cs *ContractSet) parseFile(repo, path string) error {
 				return fail(l, "pure outside func")
 			}
 			curF.Pure = true
+		case "option":
+			if curF == nil {
+				return fail(l, "option outside func")
+			}
+			if curF.Options == nil {
+				curF.Options = map[string]bool{}
+			}
+			for _, o := range strings.Fields(rest) {
+				if o != "elemlinks" {
+					return fail(l, "unknown option "+o)
+				}
+				curF.Options[o] = true
+			}
 		case "trusted":
 			if curF == nil {
 				return fail(l, "trusted outside func")
@@ -438,8 +453,17 @@ func (cs *ContractSet) parseFile(repo, path string) error {
 			curF.Trusted = true
 		case "assumed":
 			// "assumed requires": the preconditions are assumed at call sites (a stated assumption about a dependency)
+			if curF != nil && strings.HasPrefix(strings.TrimSpace(rest), "callee-requires ") {
+				// the preconditions of the named callees are assumed (not proved) at this function's call sites
+				for _, n := range strings.Split(strings.TrimPrefix(strings.TrimSpace(rest), "callee-requires "), ",") {
+					if n = strings.TrimSpace(n); n != "" {
+						curF.AssumeCallee = append(curF.AssumeCallee, n)
+					}
+				}
+				break
+			}
 			if curF == nil || strings.TrimSpace(rest) != "requires" {
-				return fail(l, "syntax: assumed requires")
+				return fail(l, "syntax: assumed requires | assumed callee-requires F, G")
 			}
 			curF.AssumeRequires = true
 		case "at":
